@@ -5,10 +5,10 @@ let () =
   (try
      while true do
        let line = input_line ic in
-       let case =
+       let case, impl =
          match Str.search_forward (Str.regexp_string " => ") line 0 with
-         | i -> String.sub line 0 i
-         | exception Not_found -> line in
+         | i -> String.sub line 0 i, String.sub line (i + 4) (String.length line - i - 4)
+         | exception Not_found -> line, "" in
        let fields = Array.of_list (List.filter (fun s -> s <> "") (String.split_on_char ' ' case)) in
        let out =
          if Array.length fields = 0 then "badcase\t-\t"
@@ -17,7 +17,7 @@ let () =
            | None -> "nokind\t-\t"
            | Some h ->
              (try
-                let o = h (Array.sub fields 1 (Array.length fields - 1)) in
+                let o = h (Array.sub fields 1 (Array.length fields - 1)) impl in
                 o.Proto.model ^ "\t" ^ o.Proto.spec ^ "\t" ^ o.Proto.cls
               with e -> "driver-exn:" ^ Printexc.to_string e ^ "\t-\t") in
        Buffer.add_string buf out; Buffer.add_char buf '\n'
